@@ -168,11 +168,13 @@ def chain_file(r):
     src, mk, ik = r.choice(nests()[0])
     o, m, i = ("(module) @m ", "m"), ("(%s) @mid " % mk, "mid"), ("(%s) @inn " % ik, "inn")
     steps = [("def", o), ("read", i), ("def", m), ("read", i)]
-    k = r.randrange(5)
+    k = r.randrange(6)
     if k == 1:
         steps = [("def", m), ("read", i), ("def", o), ("read", i)]
     elif k == 2:
         steps = [("read", i), ("def", m), ("def", o), ("read", i), ("read", m)]
+    elif k == 4:        # an unrelated scoped variable on the middle node must not stop the search for the inherited one
+        steps = [("def", o), ("defother", m), ("read", i)] + ([("read", m)] if r.random() < 0.5 else [])
     elif k == 3:        # every definition before every read (order-insensitive): root only, or root and middle
         steps = [("def", o)] + ([("def", m)] if r.random() < 0.5 else []) + [("read", i), ("read", m)]
     if r.random() < 0.3:
@@ -181,8 +183,35 @@ def chain_file(r):
         r.shuffle(steps)
     stanzas = []
     for j, (what, (q, cap)) in enumerate(steps):
-        stanzas.append(def_stanza(q, cap, name, "L%d" % j) if what == "def" else read_stanza(q, cap, name, j))
+        if what == "def":
+            stanzas.append(def_stanza(q, cap, name, "L%d" % j))
+        elif what == "defother":
+            stanzas.append(def_stanza(q, cap, "zz_other", "O%d" % j))
+        else:
+            stanzas.append(read_stanza(q, cap, name, j))
     return A.file(stanzas, inherit=[name] if r.random() < 0.85 else []), src
+
+
+def computed_scope_file(r):
+    """the same scoped variable defined on one node twice, once through a capture and once through a computed scope
+    (local alias, a variable holding the node, a list element, a nested scope): always a duplicate"""
+    name = r.choice(NAMES)
+    src, pk, ck = r.choice(nests()[1] + [(s_, m_, i_) for (s_, m_, i_) in nests()[0]][:40])
+    q = "(%s) @nd " % ck
+    direct = A.stanza(q, [A.let(A.svar(A.cap("nd"), name), A.string("direct"))])
+    how = r.randrange(4)
+    if how == 0:
+        other = A.stanza(q, [A.let(A.var("alias"), A.cap("nd")), A.let(A.svar(A.var("alias"), name), A.string("alias"))])
+    elif how == 1:
+        other = A.stanza(q, [A.forin("el", A.lst(A.cap("nd")), [A.let(A.svar(A.var("el"), name), A.string("element"))])])
+    elif how == 2:
+        other = A.stanza(q, [A.let(A.svar(A.cap("nd"), "selfref"), A.cap("nd")), A.let(A.svar(A.svar(A.cap("nd"), "selfref"), name), A.string("nested"))])
+    else:
+        other = A.stanza("(%s (%s) @kid) @_par " % (pk, ck), [A.let(A.var("alias"), A.cap("kid")), A.let(A.svar(A.var("alias"), name), A.string("kid"))])
+    stz = [direct, other] if r.random() < 0.5 else [other, direct]
+    if r.random() < 0.3:      # control: different names, no duplicate
+        stz[1]["stmts"][-1] = json.loads(json.dumps(stz[1]["stmts"][-1]).replace('"name": "%s"' % name, '"name": "%s_x"' % name))
+    return A.file(stz), src
 
 
 def same_range_file(r):
@@ -208,10 +237,10 @@ def same_range_file(r):
 
 def shaped_cases(tier, prefix="c04s"):
     r = A.rng(44)
-    n = 60 if tier == "quick" else 1500
+    n = 90 if tier == "quick" else 2000
     cases = []
     for k in range(n):
-        prog, src = chain_file(r) if k % 3 else same_range_file(r)
+        prog, src = (chain_file(r) if k % 4 in (1, 2) else same_range_file(r)) if k % 4 else computed_scope_file(r)
         cases += A.both_modes("%s-%d" % (prefix, k), prog, src)
     return cases
 
